@@ -15,7 +15,8 @@ META = {
              'public API: once on the ordinary path and once with the guarded '
              'hook lowering the large-model threshold to -1 (every model takes '
              'the external-buffer path); in a quarter of the cases the '
-             'Quantizer object has already quantized with another recipe. '
+             'Quantizer object has already quantized with another recipe, in a '
+             'quarter the float input model is itself in external-buffer form. '
              'Both byte strings are raw-parsed. '
              'Non-trivial = >= 2 non-empty buffers of different sizes, at least '
              'one whose size is not a multiple of 16; distinct by case hash.'),
@@ -43,6 +44,10 @@ def cases(draw, tier):
   if draw(st.integers(0, 3)) == 0:
     # the Quantizer object was already used once with another recipe
     case['prior'] = draw(st.sampled_from(PRIORS))
+  if draw(st.integers(0, 3)) == 0:
+    # the float model itself stores its constants after the flatbuffer (the form
+    # every > 2 GB input has)
+    case['external_input'] = True
   return case
 
 
@@ -68,7 +73,8 @@ def check_case(case):
     raise Violation('one_path_raises', 'small: %r large: %r' % (small.exc, large.exc))
   if not small.ok:
     return core.result(False, ['raised:' + str(small.stage)])
-  labels = ['returned'] + (['quantizer_used_before'] if case.get('prior') else [])
+  labels = (['returned'] + (['quantizer_used_before'] if case.get('prior') else []) +
+            (['input_model_external_form'] if case.get('external_input') else []))
   a, b = fb.parse(small.qbytes), fb.parse(large.qbytes)
   raw = large.qbytes
   if core.jdump(_strip(a)) != core.jdump(_strip(b)):
